@@ -52,9 +52,32 @@ func GoEnv() []string {
 	return env
 }
 
+// isolateForExtraOverlay gives a run with VERIF_EXTRA_OVERLAY its own binary and
+// overlay directories, so that trying a mutated tree never clobbers (or picks
+// up) the binaries of a concurrent run on the unchanged tree.
+func isolateForExtraOverlay() {
+	if os.Getenv("VERIF_EXTRA_OVERLAY") == "" {
+		return
+	}
+	x := filepath.Join(BuildDir, fmt.Sprintf("x-%d", os.Getpid()))
+	BinDir = filepath.Join(x, "bin")
+	OverlayDir = filepath.Join(x, "overlay")
+	isolatedDir = x
+}
+
+var isolatedDir string
+
+// CleanupIsolated removes the private directories of an extra-overlay run.
+func CleanupIsolated() {
+	if isolatedDir != "" {
+		os.RemoveAll(isolatedDir)
+	}
+}
+
 // PrepareBuildDirs creates the build directories and refreshes the scratch copy
 // of go.mod/go.sum (so -mod=mod never rewrites /repo/go.mod).
 func PrepareBuildDirs() error {
+	isolateForExtraOverlay()
 	for _, d := range []string{BuildDir, BinDir, ModDir, OverlayDir, filepath.Join(VerifDir, "evidence"), filepath.Join(VerifDir, "evidence", "replays")} {
 		if err := os.MkdirAll(d, 0o755); err != nil {
 			return err
